@@ -220,6 +220,10 @@ theorem tdiv_cast (a b : Nat) : Int.tdiv (a : Int) (b : Int) = ((a / b : Nat) : 
   rw [Int.tdiv_eq_ediv_of_nonneg (by omega)]
   exact (Int.natCast_ediv a b).symm
 
+theorem tmod_cast (a b : Nat) : Int.tmod (a : Int) (b : Int) = ((a % b : Nat) : Int) := by
+  rw [Int.tmod_eq_emod_of_nonneg (by omega)]
+  exact (Int.natCast_emod a b).symm
+
 /-- `a / b * b` and `a % b` in the integers, as linear facts over the atoms omega sees -/
 theorem div_mul_facts (a b : Nat) :
     ((a / b : Nat) : Int) * (b : Int) + ((a % b : Nat) : Int) = (a : Int)
@@ -238,9 +242,11 @@ theorem div_mul_facts (a b : Nat) :
     emission loop starts) is the model's, for all colnum, colinc (also 0) and columns -/
 theorem tab_code_absolute (colnum colinc cur : Nat) :
     dirT_target { at_ := false, p_0 := colnum, p_1 := colinc, c_column_2 := cur } = (tabSpaces false colnum colinc cur : Nat) := by
-  simp only [dirT_target, tabSpaces, tdiv_cast, Bool.false_eq_true, if_false, decide_eq_true_eq]
+  simp only [dirT_target, tabSpaces, tdiv_cast, tmod_cast, Bool.false_eq_true, if_false, decide_eq_true_eq, Int.add_mul, Int.mul_add, Int.one_mul, Int.mul_one]
   obtain ⟨hdm, hlt, hge⟩ := div_mul_facts cur colinc
   have hcast : ((colnum * colinc : Nat) : Int) = (colnum : Int) * (colinc : Int) := by push_cast; rfl
+  have hcomm1 : (colinc : Int) * (colnum : Int) = (colnum : Int) * (colinc : Int) := Int.mul_comm _ _
+  have hcomm2 : (colinc : Int) * ((cur / colinc : Nat) : Int) = ((cur / colinc : Nat) : Int) * (colinc : Int) := Int.mul_comm _ _
   have hmod : 0 < colinc → cur % colinc < colinc := fun h => Nat.mod_lt _ h
   repeat' split
   all_goals omega
@@ -250,9 +256,10 @@ theorem tab_code_absolute (colnum colinc cur : Nat) :
 theorem tab_code_relative (colrel colinc cur : Nat) :
     (colrel : Int) + dirT_target { at_ := true, p_0 := colrel, p_1 := colinc, c_column := ((cur + colrel : Nat) : Int) }
       = (tabSpaces true colrel colinc cur : Nat) := by
-  simp only [dirT_target, tabSpaces, tdiv_cast, if_true, decide_eq_true_eq, Bool.or_eq_true]
+  simp only [dirT_target, tabSpaces, tdiv_cast, tmod_cast, if_true, decide_eq_true_eq, Bool.or_eq_true, Int.add_mul, Int.mul_add, Int.one_mul, Int.mul_one]
   obtain ⟨hdm, hlt, hge⟩ := div_mul_facts (cur + colrel) colinc
   have hmod : 0 < colinc → (cur + colrel) % colinc < colinc := fun h => Nat.mod_lt _ h
+  have hcomm2 : (colinc : Int) * (((cur + colrel) / colinc : Nat) : Int) = (((cur + colrel) / colinc : Nat) : Int) * (colinc : Int) := Int.mul_comm _ _
   have hmod2 : 0 < colinc → (colinc - (cur + colrel) % colinc) % colinc
       = if (cur + colrel) % colinc = 0 then 0 else colinc - (cur + colrel) % colinc := by
     intro h
